@@ -2,6 +2,8 @@ SPECIFICATION TSpec
 CONSTANTS
   SameFs = TRUE
   LinkBackup = FALSE
+  ClockSteps = FALSE
+  StaleCheck = FALSE
 INVARIANTS
   P_RoundTrip
   P_StopBeforeReplace
